@@ -110,6 +110,7 @@ PROPS["C20"] = dict(
 )
 
 PROPS_EXTRA = {"C06": ["Props.EffectFacts", "Props.CodecFacts"], "C17": ["Props.EffectFacts"], "C04": ["Props.C04Conc"],
+               "C02": ["Props.C13Facts"], "C15": ["Props.C13Facts"],
                "C07": ["Props.CodecFacts"], "C08": ["Props.CodecFacts"], "C12": ["Props.CodecFacts"], "C18": ["Props.CodecFacts"]}
 _core_prop("C06", "Merge admits only verified, authorised entries and is all-or-nothing",
     r"(join|joinN|append|tamper)/(join\..*|append\.denied|entries|len|heads|rawheads|values|clock|snapshot\..*|json\.heads)",
